@@ -1022,13 +1022,41 @@ impl BytecodeVM {
         use crate::value::{ExoticObject, JsFunction};
 
         let CallParams {
-            callee,
-            this_value,
-            args,
+            mut callee,
+            mut this_value,
+            mut args,
             return_register,
             new_target,
             is_super_call,
         } = params;
+
+        // Unwrap bound functions with a loop: f.bind(..).bind(..)... can be arbitrarily long,
+        // and every layer only rewrites the callee, `this` and the leading arguments
+        loop {
+            let unwrapped = match &callee {
+                JsValue::Object(obj) => match &obj.borrow().exotic {
+                    ExoticObject::Function(JsFunction::Bound(bound)) => {
+                        let mut full_args = bound.bound_args.clone();
+                        full_args.append(&mut args);
+                        Some((
+                            JsValue::Object(bound.target.cheap_clone()),
+                            bound.this_arg.clone(),
+                            full_args,
+                        ))
+                    }
+                    _ => None,
+                },
+                _ => None,
+            };
+            match unwrapped {
+                Some((target, bound_this, full_args)) => {
+                    callee = target;
+                    this_value = bound_this;
+                    args = full_args;
+                }
+                None => break,
+            }
+        }
 
         let JsValue::Object(func_obj) = &callee else {
             return Err(JsError::type_error("Not a function"));
@@ -1230,14 +1258,36 @@ impl BytecodeVM {
     fn setup_trampoline_construct(
         &mut self,
         interp: &mut Interpreter,
-        callee: JsValue,
+        mut callee: JsValue,
         this_value: JsValue,
-        args: Vec<JsValue>,
+        mut args: Vec<JsValue>,
         return_register: Register,
         new_target: JsValue,
         new_obj: Gc<JsObject>,
     ) -> Result<(), JsError> {
         use crate::value::{ExoticObject, JsFunction};
+
+        // Unwrap bound functions with a loop (see setup_trampoline_call)
+        loop {
+            let unwrapped = match &callee {
+                JsValue::Object(obj) => match &obj.borrow().exotic {
+                    ExoticObject::Function(JsFunction::Bound(bound)) => {
+                        let mut full_args = bound.bound_args.clone();
+                        full_args.append(&mut args);
+                        Some((JsValue::Object(bound.target.cheap_clone()), full_args))
+                    }
+                    _ => None,
+                },
+                _ => None,
+            };
+            match unwrapped {
+                Some((target, full_args)) => {
+                    callee = target;
+                    args = full_args;
+                }
+                None => break,
+            }
+        }
 
         let JsValue::Object(func_obj) = &callee else {
             return Err(JsError::type_error("Not a constructor"));
